@@ -72,6 +72,16 @@ def parseDocs (s : String) : Option (List (Nat × Nat)) :=
     | [a, b] => do pure ((← a.toNat?), (← b.toNat?))
     | _ => none
 
+/-- `mid.rid@pos` entries of a bulk -/
+def parseEntries (s : String) : Option (List Entry) :=
+  (splitList s).mapM fun d =>
+    match d.splitOn "@" with
+    | [idS, p] =>
+      match idS.splitOn "." with
+      | [a, b] => do pure (((← a.toNat?), (← b.toNat?)), (← p.toNat?))
+      | _ => none
+    | _ => none
+
 def parseFrac (s : String) : Option Frac :=
   match s.splitOn ":" with
   | [kind, ct, bulks] => do
@@ -147,7 +157,10 @@ def step (line : String) : String :=
   | ["frac", kind, ct, bulks, probes] =>
     match ct.toNat?, parseBulks bulks, natList? probes with
     | some ct, some bs, some ps =>
-      let s : Info := if kind = "sealed" then FracInfo.sealed consts ct bs else bs.foldl appendBulk (newInfo ct)
+      let s : Info :=
+        if kind = "sealed" then FracInfo.sealed consts ct bs
+        else if kind = "legacy" then legacyEntry (FracInfo.sealed consts ct bs)
+        else bs.foldl appendBulk (newInfo ct)
       s!"ok from={s.ifrom} to={s.ito} total={s.docsTotal} dist={fmtDistOpt s.dist} isect={matrix ps (FracInfo.isIntersecting? s)}"
     | _, _, _ => "bad-op"
   | ["prune", fracs, qf, qt] =>
@@ -168,12 +181,29 @@ def step (line : String) : String :=
       | none => "bad-op"
     | none => "bad-op"
   | ["ingest", ct, hist, probes] =>
-    -- `ingest <ct> <bulk;bulk;.. of mid.rid> <probes>`: info of the active fraction after the history of bulks
-    match ct.toNat?, (splitList hist ";").mapM parseDocs, natList? probes with
+    -- `ingest <ct> <bulk;bulk;.. of mid.rid@pos> <probes>`: the active fraction after the history of bulks:
+    -- per bulk what the worker hands to UpdateStats and AppendIDs, then the info
+    match ct.toNat?, (splitList hist ";").mapM parseEntries, natList? probes with
     | some ct, some hist, some ps =>
-      let st := hist.foldl ingestBulk (newInfo ct, [])
-      s!"ok from={st.1.ifrom} to={st.1.ito} total={st.1.docsTotal} stored={fmtIDs st.2} isect={matrix ps (FracInfo.isIntersecting? st.1)}"
+      let st := hist.foldl ingestBulk (newActive ct)
+      let steps := (List.range hist.length).map fun i =>
+        let before := (hist.take i).foldl ingestBulk (newActive ct)
+        let r := setMultiple before.pos (hist.getD i [])
+        let surv := survivors ((hist.getD i []).map Prod.fst) r.2
+        s!"{(collectorStats surv).1}/{(collectorStats surv).2}/{r.2.length}/{fmtIDs surv}"
+      s!"ok steps={fmtList id steps ";"} from={st.info.ifrom} to={st.info.ito} total={st.info.docsTotal} ids={fmtIDs st.ids} isect={matrix ps (FracInfo.isIntersecting? st.info)}"
     | _, _, _ => "bad-op"
+  | ["ingeststeps", hist] =>
+    -- per bulk of the history: `MinMID/MaxMID/DocsCounter/collector IDs` as handed to UpdateStats / AppendIDs
+    match (splitList hist ";").mapM parseEntries with
+    | some hist =>
+      let steps := (List.range hist.length).map fun i =>
+        let before := (hist.take i).foldl ingestBulk (newActive 0)
+        let r := setMultiple before.pos (hist.getD i [])
+        let surv := survivors ((hist.getD i []).map Prod.fst) r.2
+        s!"{(collectorStats surv).1}/{(collectorStats surv).2}/{r.2.length}/{fmtIDs surv}"
+      s!"ok {fmtList id steps ";"}"
+    | none => "bad-op"
   | ["ensured", desc, ids, next] =>
     -- `ensured <desc 0|1> <ids mid.rid,..> <from:to | none>`: calcEnsuredIDsCount(ids, [next fraction], order) -> `ok n`
     match bool? desc, parseDocs ids with
